@@ -150,3 +150,34 @@ impl notify::EventHandler for NotifyEventHandler {
         }
     }
 }
+
+/// Verification hooks (only with `--cfg assets_manager_verif`): access to the
+/// private pieces of the filesystem watcher.
+#[cfg(assets_manager_verif)]
+pub(super) mod verif {
+    use super::*;
+
+    /// The (private) translation of a path under `root` into a directory entry.
+    pub fn id_of_path(root: &Path, path: &Path) -> Option<OwnedDirEntry> {
+        super::id_of_path(&mut IdBuilder::default(), root, path)
+    }
+
+    /// The real `notify` event handler, bound to the given roots and sender
+    /// (without an OS watcher).
+    pub struct Handler(NotifyEventHandler);
+
+    impl Handler {
+        pub fn new(roots: Vec<PathBuf>, events: crate::hot_reloading::EventSender) -> Self {
+            Handler(NotifyEventHandler {
+                roots,
+                events,
+                id_builder: IdBuilder::default(),
+                watcher: None,
+            })
+        }
+
+        pub fn handle(&mut self, event: notify::Result<notify::Event>) {
+            notify::EventHandler::handle_event(&mut self.0, event)
+        }
+    }
+}
